@@ -348,6 +348,7 @@ func checkC12(c *km.Ctx) {
 	// codes and access tokens this server signs after unsealing must verify: the verifier list follows the keys
 	checkVerifierListFresh(c, s, "R-C12-1")
 
+	checkPublishedJWK(c, "R-C12-4")
 	// ---- R-C12-4 provenance
 	prov := func(fn *ssa.Function, typ, field, req string, pred func(v ssa.Value) bool) {
 		sts := storesByField(fn, typ)[field]
@@ -952,4 +953,42 @@ func pkceTableTransform(c *km.Ctx, k km.Conj, o ssa.Value, vf *ssa.Function) (*s
 		return nil, "transform table has no S256 entry", false
 	}
 	return q, "", true
+}
+
+// checkPublishedJWK: what the key-set endpoint says about a key is derived from that key. The relying party picks
+// the verification key by key id and, when given, by algorithm: an id that is not the fingerprint of the key it
+// stands next to, or one algorithm name written down for keys of several families, makes a correct signature
+// unverifiable.
+func checkPublishedJWK(c *km.Ctx, rule string) {
+	fn := c.MustFunc(rule, "cmd/keymasterd", "(*RuntimeState).idpOpenIDCJWKSHandler")
+	if fn == nil {
+		return
+	}
+	n := 0
+	for _, f := range callsWithNewHelpersFuncs(c, fn, 2) {
+		km.Instrs(f, func(in ssa.Instruction) {
+			st, ok := in.(*ssa.Store)
+			if !ok {
+				return
+			}
+			fa, ok := st.Addr.(*ssa.FieldAddr)
+			if !ok || !strings.HasSuffix(km.NamedTypeOf(fa.X.Type()), "go-jose.v2.JSONWebKey") && !strings.HasSuffix(km.NamedTypeOf(fa.X.Type()), ".JSONWebKey") {
+				return
+			}
+			switch fieldNameOf(fa) {
+			case "Algorithm":
+				n++
+				cs, isC := km.ConstString(st.Val)
+				c.R.Add(rule, km.FuncName(f), "published key: algorithm", posOf(c, st), "absent, or derived from the key it describes (never one constant for every key)", km.ValStr(st.Val), !(isC && cs != ""))
+			case "KeyID":
+				n++
+				cl, idx := callRes(km.Unwrap(st.Val))
+				ok := cl != nil && idx == 0 && km.CalleeFull(cl.Common()) == KMD+".getKeyFingerprint"
+				c.R.Add(rule, km.FuncName(f), "published key: id", posOf(c, st), "the fingerprint of the key (the id the tokens carry)", km.ValStr(st.Val), ok)
+			}
+		})
+	}
+	if n == 0 {
+		c.R.AnchorLost(rule, "JSONWebKey built by the key-set endpoint")
+	}
 }
